@@ -159,7 +159,7 @@ func TestL6Loopback(t *testing.T) {
 			continue
 		}
 		t.Run(fmt.Sprintf("%d", ci), func(t *testing.T) {
-			hx.Check(t, 8, 160, 0, func(rt *rapid.T) {
+			hx.Check(t, 8, 1600, 0, func(rt *rapid.T) {
 				c := &hostCase{}
 				c.Layer = "e2e:" + cfg.name
 				c.Key = rapid.Uint64().Draw(rt, "key")
